@@ -3,7 +3,8 @@
    (the production trees of mediaquery.py / medialist.py / value.py, regenerated from the source on every run).
    Every theorem is stated for ALL production trees, environments of sub-grammars, option sets and token lists
    unless a grammar is named.                                                                                 *)
-From CssV Require Import Base Regex Tokenizer ProdParser ProdParserFacts Gen.ProdTrees ProdParserSafe ProdParserBridge ProdParserItems ProdParserDepth ProdParserMedia ProdParserPushed.
+From CssV Require Import Base Regex Tokenizer ProdParser ProdParserFacts Gen.ProdTrees ProdParserSafe ProdParserBridge ProdParserItems ProdParserDepth ProdParserMedia ProdParserPushed ProdParserValue.
+From CssV Require GrammarFacts.
 From CssV Require Grammar.
 From CssV Require Globals Gen.GlobalSites ParseTotal ParseSkel.
 Local Open Scope nat_scope.
@@ -289,3 +290,65 @@ Theorem ctor_never_pushes :
   forall g, g <> gid_PropertyValue -> forall toks d r, pparse_env d env_real g toks = Ret r -> pushed (r_stash r) = [].
 Proof. exact ProdParserPushed.ctor_never_pushes. Qed.
 Print Assumptions ctor_never_pushes.
+
+(* ---- value_accepts / value_grammar_faithful (C02/C03's hypothesis, for the single-token fragment of the value AST of
+   Grammar.v): every declaration value whose terms are identifiers (colour keywords or not), numbers, dimensions,
+   percentages, strings, URIs, hex colours or unicode ranges, with space / comma / slash separators, rendered in ANY
+   layout, with or without a following !important, is accepted by the PropertyValue grammar (depth 2), the constructor
+   keeps it, and the seq without comments is one object per term plus the operator items; read through the js reader
+   (mirror of harness/props/c02.py x_value / x_decls) it is the specified model m_value d.  TmRgb / TmFunc / TmCalc are
+   outside wf_value (not proved). *)
+Theorem value_accepts :
+  forall D lay d ga, wf_value d ->
+  exists r, pparse_env (S (S D)) env_real gid_PropertyValue (GrammarFacts.decl_value lay d (Grammar.gopt lay ga)) = Ret r /\
+            r_wf r = true /\ post PostPV r = PRet true (r_items r) [] /\ clean (r_items r) = value_items d.
+Proof. exact ProdParserValue.value_accepts. Qed.
+Print Assumptions value_accepts.
+Theorem value_grammar_faithful_simple :
+  forall lay d ga, wf_value_js d ->
+  build_value (GrammarFacts.decl_value lay d (Grammar.gopt lay ga)) = GrammarFacts.m_value d.
+Proof. exact ProdParserValue.value_grammar_faithful_simple. Qed.
+Print Assumptions value_grammar_faithful_simple.
+
+(* ... and with rgb(r, g, b) terms (ColorValue sub-parser with three DimensionValue components; depth 3) *)
+Theorem value_accepts_x :
+  forall D lay d ga, wf_valuex d ->
+  exists r, pparse_env (S (S (S D))) env_real gid_PropertyValue (GrammarFacts.decl_value lay d (Grammar.gopt lay ga)) = Ret r /\
+            r_wf r = true /\ post PostPV r = PRet true (r_items r) [] /\ clean (r_items r) = value_itemsx d.
+Proof. exact ProdParserValue.value_accepts_x. Qed.
+Print Assumptions value_accepts_x.
+Theorem value_grammar_faithful_x :
+  forall lay d ga, wf_valuex_js d ->
+  build_valuex (GrammarFacts.decl_value lay d (Grammar.gopt lay ga)) = GrammarFacts.m_value d.
+Proof. exact ProdParserValue.value_grammar_faithful_x. Qed.
+Print Assumptions value_grammar_faithful_x.
+
+(* ---- media queries with values, and the media LIST (stage 3/4 of ProdParserMedia.v):
+   media_query_accepts_v: as media_query_accepts, with expression values that the grammar takes as DimensionValue
+   (number / dimension / percentage) or Value (an identifier that is not a colour keyword) sub-objects, and with a bare
+   UNKNOWN media type (alternative 3 of the root Choice) when there is no only|not.
+   media_list_spec / media_head_spec: MediaList accepts every comma-separated list of such queries in any layout (also
+   between the gaps that cssmediarule.py leaves around it), each query parsed by the MediaQuery(_partof=True) sub-parser
+   whose stop token `,` travels through savedTokens; the MediaQuery objects kept are exactly Grammar.media_effective
+   (duplicates of an earlier simple type dropped, a simple `all` wins: medialist.py:134-159 on normalised types, commit
+   341b50d).  Side conditions wf_ml (an unknown bare type directly before a comma is rejected by the grammar: open C02
+   finding) and type_plain (no escapes in the type name: the implementation keys on normalize, the specification on lower) *)
+Theorem media_query_accepts_v :
+  forall q lay, wf_mqv q ->
+  exists r, pparse 6 env_real true opts0 tree_MediaQuery (Grammar.r_mquery lay q) stash0 = Ret r /\
+            r_wf r = true /\ r_items r = x_mquery lay q /\ mq_mediatype (r_store r) = simple_type q /\
+            r_rest r = [] /\ saved (r_stash r) = [].
+Proof. exact ProdParserMedia.media_query_accepts_v. Qed.
+Print Assumptions media_query_accepts_v.
+Theorem media_list_spec :
+  forall lay ml, wf_ml ml -> Forall type_plain (map snd ml) ->
+  exists its ps, build 6 env_real gid_MediaList (Grammar.r_mlist lay true ml) = Some (PRet true its []) /\
+                 filter is_mq_obj its = map (pobj lay) ps /\ map fst ps = Grammar.media_effective (map snd ml).
+Proof. exact ProdParserMedia.media_list_spec. Qed.
+Print Assumptions media_list_spec.
+Theorem media_head_spec :
+  forall lay g0 g1 ml, gapl g0 -> gapl g1 -> wf_ml ml -> Forall type_plain (map snd ml) ->
+  exists its ps, build 6 env_real gid_MediaList (g0 ++ Grammar.r_mlist lay true ml ++ g1) = Some (PRet true its []) /\
+                 filter is_mq_obj its = map (pobj lay) ps /\ map fst ps = Grammar.media_effective (map snd ml).
+Proof. exact ProdParserMedia.media_head_spec. Qed.
+Print Assumptions media_head_spec.
